@@ -59,7 +59,7 @@ Section Jumps.
     run_fwd (code ++ rest) (Seek l t) m cmp = run_fwd rest (Seek l t) m cmp.
   Proof.
     intros Hl Hf Hok.
-    destruct (lower_shape avail auto_casts rty lty time mask f c s code s' Hl) as [G [L N]].
+    destruct (lower_shape avail auto_casts rty lty time mask f c s code s' Hl) as [G [L [N _]]].
     rewrite seek_skip.
     - rewrite (N m Hf). reflexivity.
     - eapply Forall_impl; [|exact L]. intros st Hst. destruct st; auto.
@@ -541,5 +541,179 @@ Section Jumps.
       + (* unless (a && b) : easy *) apply Heasy; [subst b0; destruct ta, tb; reflexivity | exact Hl].
       + (* if (a || b) : easy *) apply Heasy; [subst b0; destruct ta, tb; reflexivity | exact Hl].
       + (* unless (a || b) : hard *) apply Hhard; [subst b0; destruct ta, tb; reflexivity | exact Hl].
+  Qed.
+
+  (* ---- ternary assignments ---- *)
+  Fixpoint nonan_t (te : tenv) (m : mem) (e : expr) : Prop :=
+    match e with
+    | ETern c l r => nonan te m c /\ nonan_t te m l /\ nonan_t te m r
+    | _ => True
+    end.
+
+  Lemma eval_s_tern te m c l r :
+    eval_s te m (ETern c l r) =
+    (do cv <- eval_s te m c; match cv with VInt 0 => eval_s te m r | VInt _ => eval_s te m l | _ => Panic P_TYPE end).
+  Proof. reflexivity. Qed.
+
+  Lemma agree_wt_tern n te te' : te_agree n te te' -> forall e, locals_below n e = true -> wt_tern te' e = wt_tern te e.
+  Proof.
+    intros Ha. induction e; intros Hb; cbn [LowerSem.wt_tern]; try (apply (agree_wt rty lty n te te' Ha); exact Hb).
+    cbn [locals_below] in Hb. apply andb_prop in Hb. destruct Hb as [Hb H3]. apply andb_prop in Hb. destruct Hb as [H1 H2].
+    rewrite IHe2, IHe3 by assumption. rewrite (agree_wt_cond n te te' Ha e1 H1).
+    rewrite (agree_ety rty lty n te te' Ha e2 H2), (agree_ety rty lty n te te' Ha e3 H3). reflexivity.
+  Qed.
+
+  Lemma nonan_t_agree n te te' m : te_agree n te te' -> forall e, locals_below n e = true -> nonan_t te m e -> nonan_t te' m e.
+  Proof.
+    intros Ha. induction e; intros Hb Hn; cbn [nonan_t] in *; try exact I.
+    cbn [locals_below] in Hb. apply andb_prop in Hb. destruct Hb as [Hb H3]. apply andb_prop in Hb. destruct Hb as [H1 H2].
+    destruct Hn as [Hc [Hl Hr]]. split; [apply (nonan_agree n te te' m Ha e1 H1 Hc)|]. split; [apply IHe2 | apply IHe3]; assumption.
+  Qed.
+
+  (* conditions do not depend on variables they do not mention *)
+  Lemma nonan_indep te m x v : forall e, wt_cond te e = true -> uses_var x e = false -> nonan te m e -> nonan te (update m x v) e.
+  Proof.
+    induction e; intros Hw Hu Hn; cbn [nonan] in *; try exact I.
+    - destruct op; try exact I. cbn [LowerSem.wt_cond uses_var] in *. apply IHe; assumption.
+    - cbn [uses_var] in Hu. apply Bool.orb_false_elim in Hu. destruct Hu as [Hu1 Hu2].
+      destruct op; cbn [LowerSem.wt_cond] in Hw;
+        try (apply andb_prop in Hw; destruct Hw as [Hwp _]; cbn [LowerSem.wt_pure] in Hwp;
+             apply andb_prop in Hwp; destruct Hwp as [Hwp _]; apply andb_prop in Hwp; destruct Hwp as [Hwp _];
+             apply andb_prop in Hwp; destruct Hwp as [Hw1 Hw2];
+             intros av bv Hav Hbv;
+             rewrite (eval_update_indep T libm rty lty diff te x v e1 m Hw1 Hu1) in Hav;
+             rewrite (eval_update_indep T libm rty lty diff te x v e2 m Hw2 Hu2) in Hbv; apply Hn; assumption).
+      + apply andb_prop in Hw. destruct Hw as [Hw1 Hw2]. destruct Hn as [Hn1 Hn2]. split; [apply IHe1 | apply IHe2]; assumption.
+      + apply andb_prop in Hw. destruct Hw as [Hw1 Hw2]. destruct Hn as [Hn1 Hn2]. split; [apply IHe1 | apply IHe2]; assumption.
+  Qed.
+
+  Definition tern_call (c : call) : option (var * expr) :=
+    match c with
+    | CAssignOp v None e => Some (v, e)
+    | CTernary v c l r => Some (v, ETern c l r)
+    | _ => None
+    end.
+
+  Definition TernIH (f : nat) : Prop :=
+    forall c s code s' v e, lower f c s = Ok (code, s') -> tern_call c = Some (v, e) ->
+    forall m m', wt_tern (te s) e = true -> locals_below (g s) e = true -> var_below (g s) v ->
+    nonan_t (te s) m e -> fresh m (g s) -> assign_s (te s) m v None e = Ok m' ->
+    (forall rest cmp, exists cmp', run_fwd (code ++ rest) Exec m cmp = run_fwd rest Exec m' cmp') /\
+    (g s <= g s')%nat /\ te_agree (g s) (te s) (te s').
+
+  Theorem tern_sound (HT : T_ok T libm) (H2 : T_ok2) : forall f, TernIH f.
+  Proof.
+    pose proof (lower_sound T libm avail auto_casts rty lty diff time mask no_sigil_intrinsics HT) as HA.
+    pose proof (cond_sound HT H2) as HC.
+    induction f as [|f IH]; intros c s code s' v e Hl Hc m m' Hw Hb Hv Hnn Hfr Hsem; [discriminate|].
+    (* jump-free right-hand sides: the first theorem *)
+    assert (Hpure : forall c0, wt_pure (te s) e = true -> lower (S f) c0 s = Ok (code, s') -> c0 = CAssignOp v None e ->
+              (forall rest cmp, exists cmp', run_fwd (code ++ rest) Exec m cmp = run_fwd rest Exec m' cmp') /\
+              (g s <= g s')%nat /\ te_agree (g s) (te s) (te s')).
+    { intros c0 Hwp Hl0 ->.
+      destruct (HA (S f) _ _ _ _ Hl0) with (m := m) (m' := m') as [Hr [Hg Ht]];
+        [cbn [LowerSound.wf_call]; auto | exact Hfr | exact Hsem |].
+      split; [|split; assumption]. intros rest cmp. exists cmp. apply run_fwd_pure. exact Hr. }
+    assert (Htern : forall cnd l r, e = ETern cnd l r -> lower f (CTernary v cnd l r) s = Ok (code, s') ->
+              (forall rest cmp, exists cmp', run_fwd (code ++ rest) Exec m cmp = run_fwd rest Exec m' cmp') /\
+              (g s <= g s')%nat /\ te_agree (g s) (te s) (te s')).
+    { intros cnd l r -> Hl0. eapply (IH (CTernary v cnd l r)); try eassumption. reflexivity. }
+    destruct c; cbn [tern_call] in Hc; try discriminate.
+    - (* CAssignOp v None e *)
+      destruct aop; [discriminate|]. inversion Hc; subst v0 rhs. clear Hc.
+      destruct e; try (eapply Hpure; [exact Hw | exact Hl | reflexivity]).
+      (* ETern *)
+      cbn [Lower.lower Lower.classify] in Hl. rewrite ty_eqb_refl in Hl. cbn [negb] in Hl.
+      eapply Htern; [reflexivity | exact Hl].
+    - (* CTernary *)
+      inversion Hc; subst v0 e. clear Hc.
+      rename c into cnd.
+      cbn [LowerSem.wt_tern] in Hw. apply andb_prop in Hw. destruct Hw as [Hw Hsame].
+      apply andb_prop in Hw. destruct Hw as [Hw Hwr]. apply andb_prop in Hw. destruct Hw as [Hwc Hwl].
+      cbn [locals_below] in Hb. apply andb_prop in Hb. destruct Hb as [Hb Hbr]. apply andb_prop in Hb. destruct Hb as [Hbc Hbl].
+      destruct Hnn as [Hnc [Hnl Hnr]].
+      (* the source picks a branch *)
+      unfold LowerSound.assign_s in Hsem. fold (eval_s (te s) m (ETern cnd l r)) in Hsem. rewrite eval_s_tern in Hsem.
+      destruct (eval_s (te s) m cnd) as [cv| | |] eqn:Ecv; cbn [obind] in Hsem; try discriminate.
+      destruct (cond_val_int HT _ _ _ _ Hwc Ecv) as [zc ->].
+      set (tc := negb (zc =? 0)).
+      assert (Hcs : cond_s (te s) m cnd = Ok tc) by (unfold cond_s; rewrite Ecv; cbn; unfold tc; destruct zc; reflexivity).
+      cbn [Lower.lower] in Hl. unfold gen_label in Hl. cbn [fst snd g te] in Hl.
+      set (lf := LGen GK_TERN_FALSE (g s)) in *. set (le := LGen GK_TERN_END (S (g s))) in *.
+      set (s2 := mklst (S (S (g s))) (te s)) in *.
+      apply seq_ok in Hl. destruct Hl as [cc [s3 [r1 [H1 [Hl Hc1]]]]].
+      apply seq_ok in Hl. destruct Hl as [cl [s4 [r2 [H2' [Hl Hc2]]]]].
+      apply seq_ok in Hl. destruct Hl as [cj [s5 [r3 [H3 [Hl Hc3]]]]].
+      apply seq_ok in Hl. destruct Hl as [clf [s6 [r4 [H4 [Hl Hc4]]]]].
+      apply seq_ok in Hl. destruct Hl as [cr [s7 [r5 [H5 [H6 Hc5]]]]].
+      unfold need, instr, ret in H3. destruct (avail KJmp); [|discriminate]. inversion H3; subst cj s5. clear H3.
+      unfold ret in H4. inversion H4; subst clf s6. clear H4.
+      unfold ret in H6. inversion H6; subst r5 s'. clear H6.
+      (* the condition *)
+      destruct (HC f _ _ _ _ H1 m (xorb tc true)) as [Hrc [Hgc Htc]].
+      { cbn [wf_cond g te s2]. split; [exact Hwc|]. split; [apply (locals_below_mono' (g s)); [lia | exact Hbc]|].
+        split; [cbn; lia | exact Hnc]. }
+      { apply (fresh_mono m (g s)); [cbn; lia | exact Hfr]. }
+      { cbn [taken_sem te s2]. rewrite Hcs. reflexivity. }
+      cbn [g te s2] in Hgc, Htc.
+      assert (Htc' : te_agree (g s) (te s) (te s3)) by (intros d Hd; apply Htc; lia).
+      (* the two branches, as assignments *)
+      assert (Hbranch : forall (x : expr) cx sa sb mx, lower f (CAssignOp v None x) sa = Ok (cx, sb) ->
+                (g s <= g sa)%nat -> te_agree (g s) (te s) (te sa) ->
+                wt_tern (te s) x = true -> locals_below (g s) x = true -> nonan_t (te s) m x ->
+                assign_s (te s) m v None x = Ok mx ->
+                (forall rest cmp, exists cmp', run_fwd (cx ++ rest) Exec m cmp = run_fwd rest Exec mx cmp') /\
+                (g sa <= g sb)%nat /\ te_agree (g sa) (te sa) (te sb)).
+      { intros x cx sa sb mx Hlx Hga Hta Hwx Hbx Hnx Hsx.
+        eapply (IH (CAssignOp v None x)); try exact Hlx; try reflexivity.
+        - rewrite (agree_wt_tern (g s) (te s) (te sa) Hta x Hbx). exact Hwx.
+        - apply (locals_below_mono' (g s)); assumption.
+        - apply (var_below_mono' (g s)); assumption.
+        - apply (nonan_t_agree (g s) (te s) (te sa) m Hta x Hbx Hnx).
+        - apply (fresh_mono m (g s)); assumption.
+        - unfold LowerSound.assign_s in *. rewrite (agree_eval T libm rty lty diff (g s) (te s) (te sa) m Hta x Hbx). exact Hsx. }
+      (* static facts about the three pieces *)
+      destruct (lower_shape avail auto_casts rty lty time mask f _ _ _ _ H2') as [Gl [_ [_ Tl]]].
+      destruct (lower_shape avail auto_casts rty lty time mask f _ _ _ _ H5) as [Gr [_ [_ Tr]]].
+      assert (Ht4 : te_agree (g s) (te s) (te s4)).
+      { intros d Hd. rewrite Tl by lia. apply Htc'. exact Hd. }
+      assert (Hfinal : (g s <= g s7)%nat /\ te_agree (g s) (te s) (te s7)).
+      { split; [lia|]. intros d Hd. rewrite Tr by lia. apply Ht4. exact Hd. }
+      assert (Hlf_le : label_eqb le lf = false) by reflexivity.
+      subst code r1 r2 r3 r4.
+      split; [|exact Hfinal].
+      intros rest cmp. rewrite <- !app_assoc.
+      destruct (Hrc (cl ++ [LInstr time mask (IJmp le None)] ++ [LLabel time lf] ++ cr ++ [LLabel time le] ++ rest) cmp) as [cmp1 Hc1]. rewrite Hc1.
+      unfold after. cbn [target fst snd].
+      destruct zc as [|pz|pz]; cbn in tc; subst tc; cbn [xorb].
+      + (* condition false: skip the left branch, run the right one *)
+        rewrite (seek_through f _ _ _ _ lf None _ m cmp1 H2');
+          [| apply (fresh_mono m (g s)); [lia | exact Hfr] | cbn; lia].
+        cbn [app LowerSem.run_fwd]. rewrite label_eqb_refl.
+        assert (Hsr : assign_s (te s) m v None r = Ok m') by (unfold LowerSound.assign_s; exact Hsem).
+        destruct (Hbranch r cr s4 s7 m' H5 ltac:(lia) Ht4 Hwr Hbr Hnr Hsr) as [Hrr _].
+        destruct (Hrr (LLabel time le :: rest) cmp1) as [cmp2 Hc2]. rewrite Hc2. exists cmp2. reflexivity.
+      + (* condition true: run the left branch, jump over the right one *)
+        assert (Hsl : assign_s (te s) m v None l = Ok m') by (unfold LowerSound.assign_s; exact Hsem).
+        destruct (Hbranch l cl s3 s4 m' H2' ltac:(lia) Htc' Hwl Hbl Hnl Hsl) as [Hrl _].
+        destruct (Hrl ([LInstr time mask (IJmp le None)] ++ [LLabel time lf] ++ cr ++ [LLabel time le] ++ rest) cmp1) as [cmp2 Hc2]. rewrite Hc2.
+        exists cmp2. cbn [app LowerSem.run_fwd LowerSem.exec_step]. rewrite Hlf_le.
+        destruct (assign_s_shape T libm rty lty diff _ _ _ _ _ _ Hsl) as [rv Hm'].
+        rewrite (seek_through f _ _ _ _ le None _ m' cmp2 H5).
+        * cbn [app LowerSem.run_fwd]. rewrite label_eqb_refl. reflexivity.
+        * subst m'. apply fresh_upd; [apply (fresh_mono m (g s)); [lia | exact Hfr]|].
+          unfold var_below in Hv. destruct (v_id v); [exact I | lia].
+        * cbn; lia.
+      + (* condition true (negative value) *)
+        assert (Hsl : assign_s (te s) m v None l = Ok m') by (unfold LowerSound.assign_s; exact Hsem).
+        destruct (Hbranch l cl s3 s4 m' H2' ltac:(lia) Htc' Hwl Hbl Hnl Hsl) as [Hrl _].
+        destruct (Hrl ([LInstr time mask (IJmp le None)] ++ [LLabel time lf] ++ cr ++ [LLabel time le] ++ rest) cmp1) as [cmp2 Hc2]. rewrite Hc2.
+        exists cmp2. cbn [app LowerSem.run_fwd LowerSem.exec_step]. rewrite Hlf_le.
+        destruct (assign_s_shape T libm rty lty diff _ _ _ _ _ _ Hsl) as [rv Hm'].
+        rewrite (seek_through f _ _ _ _ le None _ m' cmp2 H5).
+        * cbn [app LowerSem.run_fwd]. rewrite label_eqb_refl. reflexivity.
+        * subst m'. apply fresh_upd; [apply (fresh_mono m (g s)); [lia | exact Hfr]|].
+          unfold var_below in Hv. destruct (v_id v); [exact I | lia].
+        * cbn; lia.
   Qed.
 End Jumps.
